@@ -51,6 +51,14 @@ def fixed_extents(facts):
                         a_ = strip(a)
                         if a_ is not None and a_.get('k') == 'ref' and a_.get('id') == p['id']:
                             m = max(m, 64)
+                if e.get('k') == 'call' and e.get('cname') in LOAD_WIDTH and LOAD_WIDTH.get(e.get('cname')) and e.get('args'):
+                    a = strip(e['args'][0])
+                    off = 0
+                    if a is not None and a.get('k') == 'bin' and a['op'] == '+' and cval(a['r']) is not None:
+                        off = cval(a['r'])
+                        a = strip(a['l'])
+                    if a is not None and a.get('k') == 'ref' and a.get('id') == p['id']:
+                        m = max(m, off + LOAD_WIDTH[e['cname']])
                 # *(const uint32_t*)(p) style
                 if e.get('k') == 'un' and e['op'] == '*':
                     inner = strip(e['e'])
@@ -65,6 +73,8 @@ def fixed_extents(facts):
                 ext[pi] = m
         if ext:
             out[('extent', f.id)] = ext
+        else:
+            raise AnalysisBroken('C11: read extent of %s could not be derived' % f.name)
     return out
 
 
